@@ -494,7 +494,7 @@ def stepAsync (st : DState) (args : List String) : Option (DState × String) :=
     | none => some (st, "busy")
   | ["a.clone", i] => do
     match a.writers.getD (← natArg i) none with
-    | some w => fin { a with writers := a.writers ++ [some { rtype := w.rtype, id := w.id, contentLen := w.contentLen, padLen := w.padLen }] } s!"w{a.writers.length}"
+    | some w => fin { a with writers := a.writers ++ [some w.clone] } s!"w{a.writers.length}"
     | none => some (st, "no-writer")
   | ["a.wpoll", i, h] => do
     let idx ← natArg i
